@@ -523,6 +523,12 @@ def _solve(eng, pr, extra, timeout_ms, seed=0):
     s.add(*pr.assume)
     s.add(*pr.path)
     s.add(*pr.side)
+    if os.environ.get("VERIF_SOM", "1") == "1":
+        # sum-of-monomials normal form lets terms that cancel semantically (offsets of a translation, mirrored factors) cancel syntactically
+        try:
+            extra = [z3.simplify(e, som=True) for e in extra]
+        except z3.Z3Exception:
+            pass
     s.add(*extra)
     t = time.time()
     r = str(s.check())
